@@ -2,7 +2,7 @@
 # try_seeded.sh <seeded id> <Cxx> [tier] : fresh scratch worktree at /repo HEAD + seeded/<id>/patch.diff, run the check from an
 # isolated copy of /verif, clean everything up; result line(s) in /tmp/mut/seedres_<id>_<Cxx>.txt
 id=$1; prop=$2; tier=${3:-quick}
-wt=/tmp/sw_$id
+wt=/tmp/sw_slot${SLOT:-0}   # fixed path per slot: the Go build cache keys on the source directory
 git -C /repo worktree remove --force $wt 2>/dev/null
 git -C /repo worktree add -q --detach $wt HEAD || exit 2
 git -C $wt apply /verif/seeded/$id/patch.diff || { echo "patch does not apply at HEAD" > /tmp/mut/seedres_${id}_${prop}.txt; git -C /repo worktree remove --force $wt; exit 2; }
